@@ -603,6 +603,16 @@ let check_tokens (cfg : econfig) (ops : eop list) (tr : tok list) : unit =
         | _ -> ())
      end);
     (* C09: trigger = one store or none *)
+    (* C16 / C09: "object hand-over is exact" starts at Trigger: the run it creates holds exactly the given initial value *)
+    (match op with
+     | OTrigger (_, _, seed, _) when on "C16" || on "C09" ->
+       List.iter (function
+         | TStore (None, r, _) ->
+           (match r.r_obj with
+            | OVal (sd, []) when zi sd = zi seed -> ()
+            | _ -> bad (if on "C16" then "C16" else "C09") "Trigger persisted an object that is not the given initial value (run %d): the hand-over of the object is not exact" (ni r.r_run))
+         | _ -> ()) seg
+     | _ -> ());
     (match op with
      | OTrigger (fid, start, _, _) when on "C09" ->
        let stores = List.filter (function TStore _ -> true | _ -> false) seg in
